@@ -141,8 +141,21 @@ func runC07(c *mon.Ctx) {
 	}
 	c.SetAdd("registry_configurations", reg.name)
 	c.Count("config:" + reg.name)
-	c.Rule("one worker process per registry configuration (base profiles only; + P2-based extension; + P2- and P1-based extensions; + 8 further P2-based profiles sharing the JSON profile member and one P2-based profile named by an OID (JSON determinate, CBOR NO-VERDICT); + 4 P2-based and 4 P1-based further profiles). Before the tokens, the register (hook H1) must hold exactly the entries this configuration made, each handing out claims that report its name; an impostor profile is offered under every taken name (must be refused; all later lookups see the original implementation). Tokens = valid and rule-breaking claims-sets of every registered profile, serialised to CBOR and to JSON by the harness, with the profile claim: a registered name / absent / an unregistered name / the name of a profile not registered in this configuration / another base profile's name / a non-text value / present under both profiles' keys / null; plus sets that are valid only under the *other* base profile's rules (P2 with EAN-13 reference, P1 with short or no boot seed). Oracle (determinate cases): the dynamic type and canonical profile of the result of DecodeClaimsFromCBOR/JSON must be those registered under the declared name, P1 when nothing is declared, an error for an unregistered value; the validating decoders accept iff the set is valid under the declared profile's rules and an accepted token's GetProfile() returns the declared name (P1's when none); CBOR and JSON must agree; NewClaims(p) returns the registered type, reports p, and fails for unregistered names. In CBOR the profile claim is key 265, so a token carrying BOTH 265 and P1's -75000 is judged by 265 (P2 name -> P2 implementation, unregistered -> error); in JSON a quarter of the profile strings are spelled with escape sequences (same value); in a quarter of the CBOR tokens the integer keys are in a longer-than-necessary form. A registered P1-derived profile named under key 265 of a P1-keyed token selects that implementation (valid iff the set is and -75000 is absent); a JSON null profile member on a profile-1 document declares nothing (profile 1 assumed). NO-VERDICT (counted; only 'never accepted under another profile' is asserted): null profile in CBOR / on a P2 document, P1 name under key 265, JSON documents carrying both members with one unregistered, both members present with one unknown, a P1-derived extension in CBOR (not selectable by design: its name lives under -75000). distinct_nontrivial = distinct (configuration, format, base, declaration class, validity class) signatures")
+	c.Rule("one worker process per registry configuration (base profiles only; + P2-based extension; + P2- and P1-based extensions; + 8 further P2-based profiles sharing the JSON profile member and one P2-based profile named by an OID (JSON determinate, CBOR NO-VERDICT); + 4 P2-based and 4 P1-based further profiles). Before the tokens, three claims types without usable profile field are offered (must be refused and leave nothing behind); the register (hook H1) must hold exactly the entries this configuration made, each handing out claims that report its name; an impostor profile is offered under every taken name (must be refused; all later lookups see the original implementation). Tokens = valid and rule-breaking claims-sets of every registered profile, serialised to CBOR and to JSON by the harness, with the profile claim: a registered name / absent / an unregistered name / the name of a profile not registered in this configuration / another base profile's name / a non-text value / present under both profiles' keys / null; plus sets that are valid only under the *other* base profile's rules (P2 with EAN-13 reference, P1 with short or no boot seed). Oracle (determinate cases): the dynamic type and canonical profile of the result of DecodeClaimsFromCBOR/JSON must be those registered under the declared name, P1 when nothing is declared, an error for an unregistered value; the validating decoders accept iff the set is valid under the declared profile's rules and an accepted token's GetProfile() returns the declared name (P1's when none); CBOR and JSON must agree; tokens of the base profiles are also decoded with the type's own unmarshaller into an object from NewClaims (profile pre-set) and compared with the model; NewClaims(p) returns the registered type, reports p, and fails for unregistered names. In CBOR the profile claim is key 265, so a token carrying BOTH 265 and P1's -75000 is judged by 265 (P2 name -> P2 implementation, unregistered -> error); in JSON a quarter of the profile strings are spelled with escape sequences (same value); in a quarter of the CBOR tokens the integer keys are in a longer-than-necessary form. A registered P1-derived profile named under key 265 of a P1-keyed token selects that implementation (valid iff the set is and -75000 is absent); a JSON null profile member on a profile-1 document declares nothing (profile 1 assumed). NO-VERDICT (counted; only 'never accepted under another profile' is asserted): null profile in CBOR / on a P2 document, P1 name under key 265, JSON documents carrying both members with one unregistered, both members present with one unknown, a P1-derived extension in CBOR (not selectable by design: its name lives under -75000). distinct_nontrivial = distinct (configuration, format, base, declaration class, validity class) signatures")
 	g := model.NewGen(c.Seed*4421 + int64(c.Shard))
+	// claims types without identifiable profile field / without JSON tag on it are
+	// refused - and leave nothing behind (the register check below sees any residue)
+	for di, dp := range []psatoken.IProfile{extprof.NoProfileFieldProfile{Name: "http://example.com/c07/defective/0"}, extprof.NoJSONTagProfile{Name: "http://example.com/c07/defective/1"}, extprof.DeviceProfileProfile{Name: "http://example.com/c07/defective/2"}} {
+		err := psatoken.RegisterProfile(dp)
+		c.Eval()
+		c.Count("defective-registrations-refused")
+		if err == nil {
+			c.Violation("C07/defective-profile-registered", fmt.Sprintf("RegisterProfile accepted a claims type without usable profile field (%d)", di), nil)
+		}
+		if x, nerr := psatoken.NewClaims(dp.GetName()); nerr == nil {
+			c.Violation("C07/refused-profile-constructible", fmt.Sprintf("NewClaims(%q) succeeds (%T) although the registration of that profile was refused (%v)", dp.GetName(), x, err), nil)
+		}
+	}
 	// the register as the library (plus this configuration) made it: every entry
 	// hands out claims that report the name they are registered under, and both
 	// dispatchers know the name
@@ -548,6 +561,38 @@ func runC07(c *mon.Ctx) {
 				}
 			}
 			c07Check(c, reg, format, input, am, e, mv, skipValidity, sig)
+			// the per-type decoders, into an object made by the profile's constructor
+			// (profile claim pre-set): what the token lacks stays lacking, what it carries wins
+			if (decl == "absent" || decl == "registered-base") && !both && !key265onP1 && !nullProfile {
+				baseName := map[int]string{1: model.P1Name, 2: model.P2Name}[base]
+				pn, pv, fr := mon.Guard(func() {
+					y, nerr := psatoken.NewClaims(baseName)
+					if nerr != nil {
+						return
+					}
+					var derr error
+					if format == "cbor" {
+						derr = y.(interface{ UnmarshalCBOR([]byte) error }).UnmarshalCBOR(input)
+					} else {
+						derr = y.(interface{ UnmarshalJSON([]byte) error }).UnmarshalJSON(input)
+					}
+					c.Eval()
+					if derr != nil {
+						c.Count("per-type-decode-refused")
+						return
+					}
+					b := a.Clone()
+					b.Canon = baseName
+					want, got := b.Expect(), obs.Observe(y)
+					c.Count("per-type-decodes-into-constructor-made-object")
+					if d := model.ObsDiff(&want, &got); d != "" {
+						c.Violation("C07/"+format+"/per-type-decode-differs/"+obsKey(&want, &got), fmt.Sprintf("decoding with the %s type's own unmarshaller into an object from NewClaims gives other claims than the token carries: %s", baseName, d), map[string]any{"sig": sig, "input_hex": mon.Hex(input)})
+					}
+				})
+				if pn {
+					c.Violation("C07/panic/"+mon.PanicKey(fr), "panic in a per-type decoder", map[string]any{"panic": pv, "frame": fr, "sig": sig})
+				}
+			}
 			if i < 2 && format == "json" {
 				c.Sample("token", map[string]any{"sig": sig, "json": string(input), "expect": e.verdict + ":" + e.name})
 			}
